@@ -105,7 +105,39 @@ def short(v, n=200):
 BAD_KINDS = ["str_raises", "repr_raises", "nonstr_key", "tuple_key", "big_int", "neg_big_int", "nan", "inf",
              "neg_inf", "bytes", "bad_bytes", "surrogate", "deep", "object", "set", "path", "date", "time",
              "complex", "circular", "str_subclass", "instance", "generator", "function", "exception", "type",
-             "bytes_key", "nested_bad", "datetime", "uuid", "both_raise", "eq_raises", "hash_obj", "decimal"]
+             "bytes_key", "nested_bad", "datetime", "uuid", "both_raise", "eq_raises", "hash_obj", "decimal",
+             "lock_in_list", "gen_in_dict", "deep_2000", "uncopyable", "uncopyable_in_set", "tracked_iter",
+             "tracked_iter_in_list", "file_in_list"]
+
+# one-shot iterators handed to logging calls; the application must find them untouched afterwards
+TRACKED = []
+
+
+class TrackedIter(object):
+    """An application-owned one-shot iterator that counts how often it was advanced."""
+
+    def __init__(self):
+        self.pulled = 0
+
+    def __iter__(self):
+        return self
+
+    def __next__(self):
+        self.pulled += 1
+        if self.pulled > 3:
+            raise StopIteration
+        return self.pulled
+
+
+class Uncopyable(object):
+    def __deepcopy__(self, memo):
+        raise TypeError("cannot be copied")
+
+    def __reduce_ex__(self, proto):
+        raise TypeError("cannot be pickled")
+
+    def __hash__(self):
+        return 7
 
 
 class StrBomb(object):
@@ -228,6 +260,28 @@ def make_bad(kind):
         return [StrBomb(), ReprBomb()]
     if kind == "hash_obj":
         return {"k": object()}
+    if kind == "lock_in_list":
+        import threading
+        return [threading.Lock(), 1]
+    if kind == "gen_in_dict":
+        return {"g": (i for i in range(3))}
+    if kind == "deep_2000":
+        return _deep(2000)
+    if kind == "uncopyable":
+        return Uncopyable()
+    if kind == "uncopyable_in_set":
+        return {Uncopyable()}
+    if kind == "tracked_iter":
+        t = TrackedIter()
+        TRACKED.append(t)
+        return t
+    if kind == "tracked_iter_in_list":
+        t = TrackedIter()
+        TRACKED.append(t)
+        return [t]
+    if kind == "file_in_list":
+        import io
+        return [io.StringIO("x")]
     raise ValueError(kind)
 
 
